@@ -33,6 +33,14 @@ def _case(draw):
     opts = draw(S.option_sets(snippets=True if draw(st.integers(0, 3)) else False, metadata=True))
     if draw(st.booleans()):
         opts["retry_config"] = draw(S.retry_configs(api))
+    if draw(st.integers(0, 2)) == 0:
+        # service YAML with mixin APIs and their HTTP rules (rule order drawn)
+        from harness import conventional as CV
+        mix = [a for a in CV.MIXIN_RULES if draw(st.booleans())] or list(CV.MIXIN_RULES)[:1]
+        rules = draw(st.permutations([r for a in mix for r in CV.MIXIN_RULES[a]]))
+        host = next((s.get("host") for _f, s, _m in M.all_methods(api)), "lib.acme.com")
+        opts["service_yaml"] = {"type": "google.api.Service", "config_version": 3, "name": host, "apis": [{"name": a} for a in mix],
+                                "http": {"rules": list(rules)}}
     seeds = draw(st.lists(st.integers(2, 4000), min_size=4, max_size=4, unique=True))
     return {"api": api, "options": opts, "hashseeds": [0, 1] + seeds}
 
